@@ -1246,10 +1246,11 @@ func (mgr *Manager) UpdateTag(name string, operation UpdateTagOperation) error {
 				newTag.converters = tag.converters
 				newTag.referencedBy = tag.referencedBy
 				newTag.Uncertain = mgr.allStreams
-				if _, _, isMark := parseTagName(name); isMark {
-					// the streams of a mark are given by its definition, as in AddTag
+				_, _, isMark := parseTagName(name)
+				if isMark {
+					// the streams of a mark are given by its definition, as in AddTag; it stays
+					// undecided only until the tags that refer to it have inherited that below
 					newTag.Matches, _ = newTag.Conditions.StreamIDs(mgr.nextStreamID)
-					newTag.Uncertain = bitmask.LongBitmask{}
 				}
 				onlyBefore := map[string]struct{}{}
 				onlyAfter := map[string]struct{}{}
@@ -1281,6 +1282,9 @@ func (mgr *Manager) UpdateTag(name string, operation UpdateTagOperation) error {
 				mgr.tags[name] = tag
 				mgr.tagEditedDuringTaggingJob = true
 				mgr.inheritTagUncertainty()
+				if isMark {
+					tag.Uncertain = bitmask.LongBitmask{}
+				}
 				mgr.startTaggingJobIfNeeded()
 				mgr.startConverterJobIfNeeded()
 			}
